@@ -6,7 +6,9 @@ CONSTANTS ReaderCap = 1
   Links = {1, 2}
   MaxBatches = 3
   Full = 2
-  MaxStops = 2
-INVARIANTS TypeOK AllJoined CollectorLast WholeOut NoDeadlock
+  MaxStops = 1
+  MaxSignals = 2
+  Handler = "count"
+INVARIANTS OrderlyOnOneSignal TypeOK AllJoined CollectorLast WholeOut NoDeadlock
 PROPERTY Terminates
 CHECK_DEADLOCK FALSE
